@@ -2059,6 +2059,9 @@ ConnStateData::abortChunkedRequestBody(const err_type error)
     }
 #else
     debugs(33, 3, "aborting chunked request without error " << error);
+    // The buffered bytes are the unparsable rest of this request's body. Forget
+    // them so that checkLogging() does not log them as another transaction.
+    inBuf.clear();
     comm_reset_close(clientConnection);
 #endif
     flags.readMore = false;
